@@ -50,7 +50,9 @@ impl Scenario for PokClock {
         match class {
             "interactive" | "interactive-tamper" => {
                 p.set("variant", 0);
-                p.set("challenge_kind", x.below(3) as i64);
+                // 0..2: the library's three challenge sources; 3..9: challenges in an arithmetic relation with the
+                // commitment secret x the prover drew (y = x, x+1, x-1, 2x) or at edge / limb-pattern values
+                p.set("challenge_kind", if x.chance(2, 3) { x.below(3) as i64 } else { x.range(3, 9) as i64 });
                 if class == "interactive-tamper" {
                     p.faults.push(Step::new("relay", &[x.below(N_RELAY_I) as i64, x.below(1 << 16) as i64]));
                 }
@@ -336,10 +338,26 @@ impl<'a> App for World<'a> {
                     let out = match ck {
                         0 => self.rec.call(self.lib, self.g, Op::ChallengeNew, &[]),
                         1 => self.rec.call(self.lib, self.g, Op::ChallengeFromHash, &[&self.plan.seed.to_le_bytes()]),
-                        _ => {
+                        2 => {
                             let mut s = [0u8; 32];
                             Xo::derive(self.plan.seed, &[0xC4A1]).fill(&mut s);
                             self.rec.call(self.lib, self.g, Op::ChallengeRandom, &[&s])
+                        }
+                        k => {
+                            // "for every challenge": also the ones no honest verifier would draw except by a 2^-255 accident
+                            let xs = self.secret.as_deref().and_then(refimpl::scalar_from_be).unwrap_or(refimpl::scalar_from_u64(7));
+                            let one = refimpl::scalar_from_u64(1);
+                            let y = match k {
+                                3 => xs,
+                                4 => xs + one,
+                                5 => xs - one,
+                                6 => xs + xs,
+                                7 => one,
+                                8 => refimpl::scalar_neg_u64(1),
+                                _ => refimpl::scalar_from_be(&crate::env::limb_key(self.plan.seed % crate::env::LIMB_KEYS)).unwrap_or(one),
+                            };
+                            self.rec.probe("challenge-related-to-commitment-secret-or-edge");
+                            Out::Ok(vec![refimpl::scalar_to_be(&y)])
                         }
                     };
                     let Some(c) = out.first().map(|b| b.to_vec()) else { return };
